@@ -4,7 +4,7 @@ CONSTANTS
     Ws = {1, 2, 3, 16}
     Modes = {"seq", "par"}
     Variants = {"plain", "ia", "derived"}
-    ColSets = {{"k"}, {"i"}, {"x"}, {"k", "i"}, {"k", "x"}, {"i", "x"}, {"k", "i", "x"}}
+    ColSets = {{"k"}, {"i"}, {"x"}, {"k", "i"}, {"k", "x"}, {"i", "x"}, {"k", "i", "x"}, {"q"}, {"k", "q"}, {"x", "q"}, {"i", "x", "q"}}
     Kinds = {"steady_state", "time_course", "protocol", "protocol_time_course", "mc.steady_state", "mc.time_course", "mc.scan_steady_state"}
     FailModes = {"intfail", "nosteady", "raise"}
     MaxDur = 3
